@@ -5,17 +5,33 @@ C02 — every request gets exactly one outcome; 404/405/415/406 are exact; no pa
 best-matching service → routes admitting the path whose conditions hold (404 if none) → same
 method (405 + Allow set) → consuming the Content-Type (415 when a body is sent) → able to satisfy
 Accept (415 for a bodiless POST/PUT/PATCH, else 406) → one of the remaining routes runs, once.
+"Best-matching" for CurlyRouter: greatest `Spec.claimScore` among the roots that CLAIM the URL —
+root tokens match the leading segments, variable segments non-empty, regex variables satisfied.
 
-Full statement (false on the current code, see the witnesses):
+Full statement:
   theorem C02_classify (hwf : cfg.wfTemplates) (hh : mediaHygiene cfg) :
       c02Holds E cfg req (route E cfg req) (if selected then 1 else 0) = true
-The proofs force two hypotheses, each the class of a known finding:
-  F03  CurlyRouter ignores the regex of a root-path variable     (`noRootRegex`)
+CurlyRouter: proved in full (`C02_classify_curly`).  RouterJSR311: false on the current code, the
+proof forces one hypothesis that is the class of a known finding:
   F16  RouterJSR311: `.` in the compiled expression stops at '\n' (`'\n' ∉ req.path`)
+so the RouterJSR311 theorem keeps its `_partial`.
+
+Repaired findings:
+F03 (CurlyRouter ignored the regex of a root-path variable) is repaired (fix 19aa57d):
+`computeWebserviceScore` evaluates the expression with `regularMatchesPathToken`; the router's score
+is `Spec.claimScore` (`Curly.claimScore_eq`), the former hypothesis `Spec.noRootRegex cfg` is gone,
+and the former witness (roots `/{name:[a-z]+}`, `/{id:[0-9]+}`, request `/123`) now runs the second
+service's route (`C02_F03_fixed`).
 F04 (two notions of "has a body" in detectRoute) is repaired: `detectRoute` asks `ContentLength ≠ 0`
 at the Content-Type step and `ContentLength = 0` at the Accept step, which is `Spec.hasBody`; the
 former hypothesis `Spec.bodyCoherent req` is gone from both theorems, and the former witness request
 (chunked POST) now satisfies the table (`C02_F04_fixed`).
+
+Well-formedness of roots of route-less services (`Config.wfTemplates` speaks about route paths
+only): `Jsr.rootsRead` for RouterJSR311 (`C02_roots_witness`), `Curly.rootsRead` for CurlyRouter —
+the root reads as a template (`C02_curly_roots_witness`: `{a:` panics in the new scoring) none of
+whose tokens carries a custom verb (`C02_curly_rootverb_witness`: the new scoring does not strip
+`:verb` before cutting the expression out of the token).
 -/
 import Restful.Lemmas.Classify
 namespace Restful
@@ -23,18 +39,20 @@ namespace Props
 variable (E : ReEnv)
 
 /-- dispatching never panics, for every table in the grammar and every request
-    (RouterJSR311 additionally compiles the root path of route-less services) -/
+    (both routers additionally read the root path of route-less services: RouterJSR311 compiles
+    it, CurlyRouter cuts the expressions of its `{name:regex}` tokens out of it) -/
 theorem C02_total (cfg : Config) (hwf : cfg.wfTemplates = true)
-    (hroots : cfg.router = .jsr → Jsr.rootsRead cfg = true) (req : Req) :
+    (hrootsJ : cfg.router = .jsr → Jsr.rootsRead cfg = true)
+    (hrootsC : cfg.router = .curly → Curly.rootsRead cfg = true) (req : Req) :
     ∀ w, route E cfg req ≠ .panic w :=
-  Restful.C02_total E cfg hwf hroots req
+  Restful.C02_total E cfg hwf hrootsJ hrootsC req
 
-/-- CurlyRouter: the outcome is exactly what the decision table says -/
-theorem C02_classify_curly_partial (cfg : Config) (hk : cfg.router = .curly) (hwf : cfg.wfTemplates = true)
-    (hh : Spec.mediaHygiene cfg = true) (hr : Spec.noRootRegex cfg = true) (req : Req) :
+/-- CurlyRouter: the outcome is exactly what the decision table says (full statement) -/
+theorem C02_classify_curly (cfg : Config) (hk : cfg.router = .curly) (hwf : cfg.wfTemplates = true)
+    (hroots : Curly.rootsRead cfg = true) (hh : Spec.mediaHygiene cfg = true) (req : Req) :
     Spec.c02Holds E cfg req (route E cfg req)
       (match route E cfg req with | .selected _ _ _ => 1 | _ => 0) = true :=
-  Restful.C02_classify_curly_partial E cfg hk hwf hh hr req
+  Restful.C02_classify_curly E cfg hk hwf hroots hh req
 
 /-- RouterJSR311: the outcome is exactly what the decision table says -/
 theorem C02_classify_jsr_partial (cfg : Config) (hk : cfg.router = .jsr) (hwf : cfg.wfTemplates = true)
@@ -43,12 +61,24 @@ theorem C02_classify_jsr_partial (cfg : Config) (hk : cfg.router = .jsr) (hwf : 
       (match route E cfg req with | .selected _ _ _ => 1 | _ => 0) = true :=
   Restful.C02_classify_jsr_partial E cfg hk hwf hroots hh req hn
 
+/-- CurlyRouter's score of a root IS the specification's claim, regular expressions of root
+    variables included (the lemma that used to need `Spec.noRootRegex`) -/
+theorem C02_claimScore (cfg : Config) (hk : cfg.router = .curly) (hwf : cfg.wfTemplates = true)
+    (hroots : Curly.rootsRead cfg = true) (s : Service) (hs : s ∈ cfg.services) (qs : List Str) :
+    Curly.wsScoreE E qs (tokenize s.rootPath) =
+      match Spec.claimScore E s qs with
+      | some sc => .yes sc
+      | none => .no :=
+  Curly.claimScore_eq E hk hwf hroots hs qs
+
 /-! The `decide`d witnesses showing that the remaining hypotheses cannot be dropped, and the former
-F04 witness turned into a positive instance, live next to the lemmas (Lemmas/Classify.lean) and are
-audited with this property: -/
--- also: Restful.C02_F03_witness
+F03 and F04 witnesses turned into positive instances, live next to the lemmas (Lemmas/Classify.lean)
+and are audited with this property: -/
+-- also: Restful.C02_F03_fixed
 -- also: Restful.C02_F04_fixed
 -- also: Restful.C02_roots_witness
+-- also: Restful.C02_curly_roots_witness
+-- also: Restful.C02_curly_rootverb_witness
 
 end Props
 end Restful
